@@ -222,8 +222,8 @@ def plan(tier: str) -> dict:
                 cases.append({"worker": worker, "case": {"kind": "ws", "carrier": carrier, "named": seqs,
                                                          "bad_kind": bad_kind}})
     return {
-        "runs": 2000 if tier == "quick" else 100000,
-        "budget": 120 if tier == "quick" else 900,
+        "runs": 4000 if tier == "quick" else 100000,
+        "budget": 150 if tier == "quick" else 900,
         "cases": cases,
         "chunk": 8,
         "rule": f"All sequences up to length {n} over the reduced ASGI send alphabet ({len(HTTP_SYMBOLS)} HTTP symbols, "
